@@ -615,6 +615,7 @@ def oracle_case(case, res):
     def viol(i, what, finding=None):
         sub = dict(case)
         sub["ops"] = case["ops"][:i + 1]
+        sub["_state_before"] = state          # lets the check try a one-operation replay
         out.append(Violation("%s [%s %s %s, operation %d: %s]" % (what, ver, carrier, case.get("ty"), i, json.dumps(case["ops"][i])[:300]),
                              {"case": sub, "check": what}, finding))
 
@@ -814,7 +815,7 @@ def check(run):
             run.violations += oracle_case(c, r)
         run.coverage["search_cases"] = len(extra)
     run.coverage["failing_cases_found"] = len(run.violations)
-    run.violations[:] = first_per_kind(run.violations)
+    run.violations[:] = [minimise(v) for v in first_per_kind(run.violations)]
     run.coverage["trusted_base"] += [
         "coq/Model/Versioning.v (+ Model/Timestamp.v, Model/Calendar.v): hand-written model of stix2/versioning.py, object markings and the utils they call (correspondence-checked each run)",
         "translators/tr_versioning.py: live STIX_UNMOD_PROPERTIES, _VERSIONING_PROPERTIES, registry and _id_contributing_properties of /repo; frozen tables from /verif/spec/stix_tables.json",
@@ -838,6 +839,29 @@ def search_cases(run):
     return cases
 
 
+def minimise(v):
+    """Try to replace a failing chain by its last operation applied to the version it failed on."""
+    case = v.replay.get("case") or {}
+    before = case.pop("_state_before", None)
+    if not before or len(case.get("ops", [])) < 2:
+        return v
+    small = dict(case)
+    small["init"] = before
+    small["ops"] = case["ops"][-1:]
+    small["allow_custom"] = True
+    try:
+        res = common.run_impl("c05_impl", [small], procs=1)[0]
+        again = [x for x in oracle_case(small, res) if x.replay.get("check") == v.replay.get("check")]
+    except Exception:  # noqa: BLE001
+        again = []
+    if again:
+        a = again[0]
+        a.replay["case"].pop("_state_before", None)
+        a.finding = v.finding
+        return a
+    return v
+
+
 def first_per_kind(violations):
     """One replay per kind of failure is enough (the first found); the count of the others goes to the evidence."""
     seen, out = set(), []
@@ -852,6 +876,7 @@ def first_per_kind(violations):
 def replay(payload):
     r = payload["replay"]
     case = r["case"]
+    case.pop("_state_before", None)
     res = common.run_impl("c05_impl", [case], procs=1)[0]
     print("replay %s %s %s: %s" % (case["ver"], case["carrier"], case.get("ty"), res.get("line", res)[:2000]))
     v = oracle_case(case, res)
